@@ -13,7 +13,7 @@ ASSUMPTIONS = [
   "white space judged only when the paragraph's text nodes all share one xml:space value, never inside rt/rtc/rp",
   "node identity is checked against the source document's objects (not against internal cache clones)",
 ]
-REQUIRED = ["corpus-docs", "snapshots:plain", "snapshots:cached", "snapshots:non-empty", "c13:nodes", "class:ruby", "class:preserve-space", "class:ws-varied"]
+REQUIRED = ["corpus-docs", "snapshots:plain", "snapshots:cached", "snapshots:non-empty", "c13:nodes", "class:ruby", "class:preserve-space", "class:ws-varied", "class:unicode-space"]
 SHARD_TIMEOUT = {"quick": 900, "thorough": 7200}
 N = {"quick": 20, "thorough": 1500}
 
